@@ -167,6 +167,25 @@ def run(chk: Check):
         t = R.expr(ictx, lp[0].test, ictx.cfg.node_of[lp[0]])
         ok = S.contains(t, lambda x: isinstance(x, tuple) and x and x[0] == "cmp" and x[1] == "<" and S.contains(x[3], lambda y: isinstance(y, tuple) and y and y[0] == "attr" and y[2] == "size"))
         chk.decide(ok, "K-SPLIT", "hds:walk-bounded-by-size", lp[0], "the cluster walk stops at the stream size (BAT never indexed past the last cluster)", found=S.show(t)[:160])
+    # memoisation must be semantically invisible: a cached generator function hands out an exhausted generator on a hit
+    from ..calls import iter_functions
+
+    n_memo = 0
+    for mi, ci, fn in iter_functions(chk.prog):
+        decos = {ast.unparse(d).split("(")[0].split(".")[-1] for d in fn.decorator_list}
+        memo = bool(decos & {"lru_cache", "cache", "cached_property"})
+        if ci is not None:
+            memo = memo or any(isinstance(v, ast.Call) and ("lru_cache" in ast.unparse(v.func) or ast.unparse(v.func).endswith("cache"))
+                               for (m, st, v) in ci.self_assigns.get(fn.name, []))
+        if not memo:
+            continue
+        n_memo += 1
+        is_gen = any(isinstance(x, (ast.Yield, ast.YieldFrom)) for x in _own_nodes(fn))
+        chk.decide(not is_gen, "K-PURE", f"memoised-not-generator:{fn.name}", fn,
+                   "memoised function returns a value (not a one-shot generator)" if not is_gen else
+                   "a generator function is memoised: the cache stores the generator object, so the second call with equal arguments gets an "
+                   "exhausted generator and the read silently returns less data", nontrivial=False)
+    chk.extra["memoised_functions"] = n_memo
     chk.note("unit-table subscripts (VDI map, VHD/VHDX BAT, QCOW2 L1) are not armed for over-read: an aligned over-read of < 8 KiB leaves the "
              "last table entry only for allocation units smaller than the buffer, which these formats do not produce")
     chk.require("K-PURE", 9)
